@@ -25,7 +25,8 @@ def main():
     for f in glob.glob(f"{VERIF}/evidence/*.json"):
         shutil.copy(f, bak)
     out_path = f"{VERIF}/seeded/MATRIX.json"
-    matrix = json.load(open(out_path)) if os.path.exists(out_path) else {}
+    whole = json.load(open(out_path)) if os.path.exists(out_path) else {}
+    matrix = whole.setdefault("results", {})
     try:
         for sid in ids:
             prop = sid.split("-")[0]
@@ -76,7 +77,7 @@ def main():
                 m["failing_input_found"] = res["failing_input_found"]
                 json.dump(m, open(mp, "w"), indent=1)
             print(sid, res, flush=True)
-            json.dump(matrix, open(out_path, "w"), indent=1, sort_keys=True)
+            json.dump(whole, open(out_path, "w"), indent=1, sort_keys=True)
     finally:
         for f in glob.glob(f"{bak}/*.json"):
             shutil.copy(f, f"{VERIF}/evidence/")
